@@ -83,18 +83,21 @@ def finish(rec, name, mdir, confirmed):
     # run our check against /repo with the patch
     prop = rec["property"]
     patch = os.path.join(mdir, "patch.diff")
-    rc, out = sh("git diff --quiet", "/repo")
-    if rc != 0:
-        print("/repo dirty, not running check"); return 3
-    rc, out = sh("git apply %s" % patch, "/repo")
-    if rc != 0:
-        rec["check"] = {"applies_to_repo_head": False, "note": out[-300:]}
-        print("patch does not apply to current /repo HEAD:", out[-200:])
+    # The check is run against the scratch worktree (same commit as /repo HEAD) with the patch applied, through
+    # VERIF_ALT_REPO, so that /repo itself is never touched while other runs may be rebuilding from it.
+    # scripts/run_all_seeds.sh later re-runs every kept seed against /repo itself (apply, check, undo).
+    wt = "/tmp/wt/" + prop
+    _, h1 = sh("git rev-parse HEAD", "/repo"); _, h2 = sh("git rev-parse HEAD", wt)
+    sh("git checkout -- . && git clean -fdq", wt)
+    rc, out = sh("git apply %s" % patch, wt)
+    if rc != 0 or h1.strip() != h2.strip():
+        rec["check"] = {"applies_to_repo_head": False, "note": out[-300:] + " head %s vs %s" % (h1.strip()[:8], h2.strip()[:8])}
+        print("patch does not apply / worktree not at /repo HEAD:", out[-200:])
     else:
         try:
-            rc, out = sh("./bin/vcheck -p %s -tier quick" % prop, "/verif", timeout=3000)
+            rc, out = sh("VERIF_ALT_REPO=%s ./bin/vcheck -p %s -tier quick" % (wt, prop), "/verif", timeout=3000)
         finally:
-            sh("git checkout -- .", "/repo")
+            sh("git checkout -- . && git clean -fdq", wt)
         viol = [l for l in out.splitlines() if l.startswith("VIOLATION")]
         rec["check"] = {"applies_to_repo_head": True, "tier": "quick", "exit": rc, "violations": len(viol), "first": [v[:300] for v in viol[:3]]}
         print("check: exit=%d violations=%d" % (rc, len(viol)))
